@@ -2,10 +2,127 @@
 use crate::engine::Suite;
 
 pub fn suites() -> Vec<Suite> {
-    vec![super::swapf::suite_c01()]
+    let mut v = vec![super::swapf::suite_c01()];
+    v.extend(sys_suites());
+    v
 }
 pub const RULE: &str = "function level: case = (offer reserve x, ask reserve y, offer a, commission C) from 8 classes (log-uniform 128-bit; residue classes y*a ≡ 0,1,-1 mod (x+a); the 10^-18 truncation window built from x+a ≡ 1 (mod a); its boundary; the emptying region a > x*y*10^18; x*y*10^18 straddling 2^256; zeros/ones; a=1 window) x commission from {0, 1e-18, 0.003, 0.03, 0.5, 1-1e-18, 1, uniform, few-digit, rates putting C*gross within ±1 of a multiple of 10^18}; non-trivial = the call returned and paid out >= 1; distinct = hash of (x,y,a,C). system level: see suite descriptions";
 pub const ASSUMPTIONS: &[&str] = &[
     "Nat oracle is exact; aborts (panics) are rejections and are counted, not judged (C01 speaks of successful swaps)",
     "cases matching the KF-SWAP-ROUNDUP root-cause signature (r = y*a mod (x+a) > 0, (x+a-r)*10^18 < x+a, return+commission = floor(y*a/(x+a))+1) are counted and excluded from the verdict only while listed in KNOWN_FINDINGS.txt",
 ];
+
+// ---- system level --------------------------------------------------------------------------------
+use crate::engine::*;
+use crate::hist::*;
+use crate::known::known_or_fail;
+use crate::nat::n;
+use crate::props::c03::{roundup_analysis, swap_events};
+use crate::sys::*;
+
+#[derive(Default)]
+pub struct C01Oracle {
+    swaps_with_payout: u64,
+}
+
+impl StepOracle for C01Oracle {
+    fn on_step(&mut self, cx: &mut StepCtx, classes: &mut Vec<&'static str>) -> Verdict {
+        if !cx.rec.outcome.is_ok() {
+            return Verdict::Pass;
+        }
+        let w = &*cx.world;
+        let mut verdict = Verdict::Pass;
+        for p in 0..w.pairs.len() {
+            let evs = swap_events(w, cx.rec, cx.intent, p);
+            if evs.is_empty() {
+                continue;
+            }
+            classes.push(match cx.intent {
+                Intent::Swap { hook: false, .. } => "e:execute-swap",
+                Intent::Swap { hook: true, .. } => "e:cw20-hook",
+                Intent::Route { .. } => "e:router-hop",
+                _ => "e:other",
+            });
+            classes.push(match (w.pairs[p].infos[0].is_native_token(), w.pairs[p].infos[1].is_native_token()) {
+                (true, true) => "swapped:native/native",
+                (false, false) => "swapped:cw20/cw20",
+                _ => "swapped:native/cw20",
+            });
+            if evs.iter().any(|e| e.ret > 0) {
+                self.swaps_with_payout += 1;
+            }
+            let b = pool_in(w, &cx.rec.before, p);
+            let a = pool_in(w, &cx.rec.after, p);
+            let mut problem = None;
+            if n(a.0).mul(&n(a.1)) < n(b.0).mul(&n(b.1)) {
+                problem = Some(format!("step {}: pair{} reserves ({}, {}) -> ({}, {}): product fell across a successful swap", cx.index, p, b.0, b.1, a.0, a.1));
+            }
+            // the reserve of the asset paid out stays strictly positive
+            for e in &evs {
+                let ask = 1 - e.side;
+                let (before_ask, after_ask) = if ask == 0 { (b.0, a.0) } else { (b.1, a.1) };
+                if before_ask >= 1 && after_ask == 0 && problem.is_none() {
+                    problem = Some(format!("step {}: pair{} reserve of the paid-out asset went {} -> 0", cx.index, p, before_ask));
+                }
+            }
+            // per-swap relations (catches an over-payment even when another flow of the same
+            // transaction masks it at the balance level)
+            let analysis = roundup_analysis(&evs);
+            match (problem, analysis) {
+                (None, Ok(None)) => {}
+                (_, Err(e)) => return Verdict::Fail(format!("step {}: pair{}: {}", cx.index, p, e)),
+                (Some(pb), Ok(None)) => return Verdict::Fail(format!("{} (no swap of this transaction explains it)", pb)),
+                (pb, Ok(Some(kf))) => {
+                    classes.push("o:known-roundup");
+                    if matches!(verdict, Verdict::Pass) {
+                        verdict = known_or_fail("C01", "KF-SWAP-ROUNDUP", format!("{} [{}]", pb.unwrap_or_else(|| format!("step {}: pair{}", cx.index, p)), kf));
+                    }
+                }
+            }
+        }
+        verdict
+    }
+    fn nontrivial(&self) -> bool {
+        self.swaps_with_payout > 0
+    }
+}
+
+fn run_sys(t: &Tape, want_desc: bool) -> CaseResult {
+    let mut o = C01Oracle::default();
+    let h = run_history(t, &SWAPPY, 15, &mut o, want_desc);
+    hist_case(t, h)
+}
+fn run_sys_hostile(t: &Tape, want_desc: bool) -> CaseResult {
+    let mut o = C01Oracle::default();
+    let h = run_history(t, &HOSTILE, 15, &mut o, want_desc);
+    hist_case(t, h)
+}
+
+pub fn sys_suites() -> Vec<Suite> {
+    vec![
+        Suite {
+            name: "world_swaps",
+            about: "swap-heavy histories in a cw-multi-test world; every successful swap (execute, cw20 hook, router hop) judged on the pair's real balances and hop by hop on its swap events",
+            head_len: HEAD_LEN,
+            op_len: OP_LEN,
+            max_ops: 30,
+            quick_cases: 3_000,
+            thorough_cases: 300_000,
+            run: run_sys,
+            direct: Some(direct_with::<C01Oracle>),
+            must_hit: &["e:execute-swap", "e:cw20-hook", "e:router-hop", "swapped:native/native", "swapped:native/cw20", "swapped:cw20/cw20"],
+        },
+        Suite {
+            name: "world_swaps_hostile",
+            about: "same judgement on histories that drive pools to extreme magnitudes (18-decimal reserves above 10^18 then 1-unit swaps, dust reserves then huge offers)",
+            head_len: HEAD_LEN,
+            op_len: OP_LEN,
+            max_ops: 25,
+            quick_cases: 2_000,
+            thorough_cases: 200_000,
+            run: run_sys_hostile,
+            direct: Some(direct_with::<C01Oracle>),
+            must_hit: &["e:execute-swap", "e:cw20-hook"],
+        },
+    ]
+}
